@@ -333,10 +333,9 @@ func HandleSetFileInfo(cc *hotline.ClientConn, t *hotline.Transaction) (res []ho
 			if err != nil {
 				return nil
 			}
-			hlFile.Name, err = txtDecoder.String(string(fileNewName))
-			if err != nil {
-				return res
-			}
+			// fullNewFilePath was resolved inside the file root by ReadPath from the same new name; taking
+			// the name from it keeps a new name such as "../../x" from leaving the file root.
+			hlFile.Name = filepath.Base(fullNewFilePath)
 
 			err = hlFile.Move(fileDir)
 			if os.IsNotExist(err) {
